@@ -15,7 +15,7 @@ Case kinds
           symlinks, exec bits, kind changes, merges), fetched into a 2a repository
           (import_git_objects) and re-exported with a COLD cache: tree and commit SHAs must be the
           originals.
-  crash   finding witnesses that cannot be compared with the model (oracle only).
+  crash   witnesses of the still-known finding C35-unusual-modes-bytes-keys (oracle only: the run aborts).
 The Coq model (Model/GitTree.v) predicts the Merkle STRUCTURE (modes, names, order, blob
 contents), the yield set, and the imported tree listings; SHA equalities are oracle checks.
 """
@@ -41,8 +41,9 @@ META = {
     "level_text": ("P-spec: for the model, incremental export = from-scratch export for every tree, parent set, change list "
                    "and consistent cache (abstract object ids; iter_changes completeness is a hypothesis), the git entry order is "
                    "a function of the entry set, import(export t) = t minus empty directories, export(import g) = g for "
-                   "canonical git trees (standard modes; unusual modes by test only). One machine-checked refutation: a change "
-                   "whose new name is '.git' is not marked dirty. The model is tied to the code by differential runs on real "
+                   "canonical git trees (standard modes). After the repair round (fab1455 fd41bf0 4f049bc 1182025) no refutation "
+                   "remains: the old '.git' rename witness is a regression theorem. Unusual git file modes are still lost on "
+                   "re-export (known finding C35-unusual-modes-bytes-keys). The model is tied to the code by differential runs on real "
                    "repositories; SHA-1/serialisation are dulwich's and enter only as an abstract function."),
     "level_note": ("Trusted: Coq kernel, vm_compute, the correspondence harness (bounded sampling), dulwich object "
                    "serialisation/SHA-1, bzrformats CHKInventory.iter_changes (modelled by `changes`, compared on every run "
@@ -54,7 +55,7 @@ META = {
     "assumptions": ["object ids are a function of the object (Hb, Ht Section parameters); no SHA-1 collision among "
                     "the texts compared by find_unchanged_parent_ie (modelled as text equality)",
                     "iter_changes (bzrformats CHKInventory) reports every entry whose parent, name, kind, text or "
-                    "exec bit differs (hypothesis of C35_incremental_eq_scratch; modelled by `changes`)",
+                    "exec bit differs (hypothesis of C35_incremental_eq_scratch: no reported change => same tree; modelled by `changes`)",
                     "cache consistency: every (file id, revision) in the id map names the blob of that text",
                     "default mapping (git-v1: BZR_DUMMY_FILE None, lossy export), 2a target format (no submodules)"],
     "rule": ("native histories of 2-7 revisions over 1-9 entries with merges; git histories of 2-6 commits; "
@@ -166,7 +167,7 @@ def _sorted_listing(l):
 # generators
 # --------------------------------------------------------------------------------------
 
-NAMES = ["aa", "ab", "a-", "a0", "bb", "b.c", "x y", "été", "zz ", "dd", "d-", "ee", "A1"]
+NAMES = ["a", "aa", "ab", "a-", "a0", "bb", "b.c", "x y", "été", "zz ", "dd", "d-", "ee", "A1"]
 TARGETS = ["aa", "dd/aa", "../x", "été", "é", "t ", "nowhere", "dd"]
 CONTENTS = [b"", b"A\n", b"B\n", b"\x00\x01", b"x \n", b"\xc3\xa9\n", b"A\r\n", b"long" * 9]
 
@@ -312,8 +313,8 @@ def gen_native(rng, nrev, allow_dotgit=True):
     return {"kind": "native", "revs": revs}
 
 
-GIT_NAMES = [b"aa", b"ab", b"a-", b"a0", b"bb", b"x y", "\u00e9t".encode(), "e\u0301".encode(), b"zz ", b"dd", b"B.c"]
-GIT_FILE_MODES = [M_REG, M_REG, M_REG, M_EXE, M_EXE, M_LNK]   # unusual modes: see corpus (C35-unusual-modes-iteritems)
+GIT_NAMES = [b"a", b"aa", b"ab", b"a-", b"a0", b"bb", b"x y", "\u00e9t".encode(), "e\u0301".encode(), b"zz ", b"dd", b"B.c"]
+GIT_FILE_MODES = [M_REG, M_REG, M_REG, M_EXE, M_EXE, M_LNK]   # unusual modes: see corpus (C35-unusual-modes-bytes-keys)
 
 
 def _gen_git_tree(rng, depth=0):
@@ -443,12 +444,12 @@ def corpus():
     g3 = [[M_EXE, b"aa", b"2\n"], [M_REG, b"counter", b"3\n"], [M_DIR, b"dd", [[M_REG, b"bb", b"B\n"]]]]
     out.append({"kind": "git", "commits": [{"parents": [], "tree": g0}, {"parents": [0], "tree": g1},
                                            {"parents": [0], "tree": _git_sorted(g2)}, {"parents": [1, 2], "tree": g3}]})
-    # finding witnesses (oracle only)
-    out.append({"kind": "crash", "what": "fetch-single-char",
+    # regression (C35-fetch-find-source-paths, fixed by fab1455): a single-character file modified in a non-root commit
+    out.append({"kind": "git",
                 "commits": [{"parents": [], "tree": [[M_REG, b"a", b"1"]]}, {"parents": [0], "tree": [[M_REG, b"a", b"2"]]}]})
-    out.append({"kind": "crash", "what": "unusual-modes-iteritems",
+    out.append({"kind": "crash", "what": "unusual-modes-bytes-keys",
                 "commits": [{"parents": [], "tree": [[0o100664, b"aa", b"1"]]}]})
-    out.append({"kind": "crash", "what": "unusual-modes-iteritems",
+    out.append({"kind": "crash", "what": "unusual-modes-bytes-keys",
                 "commits": [{"parents": [], "tree": [[M_REG, b"aa", b"1"]]},
                             {"parents": [0], "tree": [[M_REG, b"aa", b"1"], [M_DIR, b"dd", [[0o100600, b"bb", b"2"]]]]}]})
     return out
@@ -776,7 +777,7 @@ def _impl(inp):
         return _impl_git(inp)
     except Exception as e:
         # the known crash classes (see notes/C35.md); anything else is a driver error
-        if type(e).__name__ not in ("TypeError", "AssertionError", "AttributeError", "BzrError"):
+        if type(e).__name__ not in ("TypeError", "AssertionError"):
             raise
         import traceback
         tb = traceback.extract_tb(e.__traceback__)
@@ -833,39 +834,6 @@ def model_term(inp):
 # oracle, findings
 # --------------------------------------------------------------------------------------
 
-def _only_banned_changes(inp):
-    """C35-banned-rename: some revision whose only differences from its left parent are entries
-    whose new name is '.git' (so nothing is marked dirty) while the old entry was exported"""
-    for r in inp.get("revs", []):
-        if not r["parents"]:
-            continue
-        base = {bytes(e[1]): e for e in inp["revs"][r["parents"][0]]["tree"]}
-        cur = {bytes(e[1]): e for e in r["tree"]}
-        changed = [fid for fid in set(base) | set(cur)
-                   if fid not in base or fid not in cur or list(base[fid]) != list(cur[fid])]
-        real = [fid for fid in changed if not (fid in cur and cur[fid][0].split("/")[-1] == ".git")]
-        moved = [fid for fid in changed if fid in cur and cur[fid][0].split("/")[-1] == ".git" and fid in base
-                 and ".git" not in base[fid][0].split("/")]
-        if moved and not real:
-            return True
-    return False
-
-
-def _symlink_out_of_banned(inp):
-    """C35-banned-symlink-blob-missing: a symlink whose name in the left parent was '.git' gets a normal
-    name without a target change (its blob was never exported and is not exported now)"""
-    for r in inp.get("revs", []):
-        if not r["parents"]:
-            continue
-        base = {bytes(e[1]): e for e in inp["revs"][r["parents"][0]]["tree"]}
-        for e in r["tree"]:
-            b = base.get(bytes(e[1]))
-            if (b is not None and e[2] == "symlink" and b[2] == "symlink" and bytes(e[3]) == bytes(b[3])
-                    and b[0].split("/")[-1] == ".git" and ".git" not in e[0].split("/")):
-                return True
-    return False
-
-
 def oracle(inp, obs):
     if isinstance(obs, Err):
         return "conversion raised " + str(obs)
@@ -897,25 +865,6 @@ def oracle(inp, obs):
     return None
 
 
-def _all_chars_exist(commits):
-    """C35-fetch-find-source-paths: a non-root commit changes a blob whose path consists only of
-    characters that are themselves top-level paths of the parent tree"""
-    for c in commits:
-        if not c["parents"]:
-            continue
-        base = commits[c["parents"][0]]["tree"]
-        top = {bytes(n).decode("utf-8", "replace") for _, n, _ in base}
-        bmap = {bytes(n): (m, v) for m, n, v in base}
-        for m, n, v in c["tree"]:
-            if isinstance(v, list):
-                continue
-            if bmap.get(bytes(n)) != (m, v):
-                name = bytes(n).decode("utf-8", "replace")
-                if name and all(ch in top for ch in name):
-                    return True
-    return False
-
-
 def _has_unusual_mode(commits):
     def un(t):
         return any(un(v) if isinstance(v, list) else m not in (M_REG, M_EXE, M_LNK) for m, n, v in t)
@@ -923,17 +872,12 @@ def _has_unusual_mode(commits):
 
 
 def finding_matches(fid, inp, obs, why):
-    if fid == "C35-banned-rename":
-        return inp["kind"] == "native" and "incremental tree" in why and _only_banned_changes(inp)
-    if fid == "C35-banned-symlink-blob-missing":
-        return (inp["kind"] == "native" and isinstance(obs, Err) and str(obs).startswith("BzrError:start_write_group")
-                and _symlink_out_of_banned(inp))
-    if fid == "C35-fetch-find-source-paths":
-        return (inp["kind"] in ("git", "crash") and isinstance(obs, Err) and str(obs).startswith("TypeError")
-                and _all_chars_exist(inp["commits"]))
-    if fid == "C35-unusual-modes-iteritems":
+    if fid == "C35-unusual-modes-bytes-keys":
+        # export_unusual_file_modes returns bytes paths: re-exporting a revision with a non-standard git file
+        # mode mixes str and bytes in _tree_to_objects (cold) or loses the mode (_check_expected_sha, warm)
         return (inp["kind"] in ("git", "crash") and isinstance(obs, Err)
-                and str(obs).startswith("AttributeError:import_git_commit") and _has_unusual_mode(inp["commits"]))
+                and (str(obs).startswith("TypeError:_tree_to_objects") or str(obs).startswith("AssertionError:_check_expected_sha"))
+                and _has_unusual_mode(inp["commits"]))
     return False
 
 
